@@ -270,8 +270,8 @@ def illtyped(tier):
             if src not in seen:
                 seen.add(src)
                 yield src
-    from .gen_spelled import LITERAL_ESCAPES, MISFIT_CALLS
-    for src in LITERAL_ESCAPES + MISFIT_CALLS:
+    from .gen_spelled import LITERAL_ESCAPES, MISFIT_CALLS, CONSTANT_ARGS, MESSAGE_LITERALS
+    for src in LITERAL_ESCAPES + MISFIT_CALLS + CONSTANT_ARGS + MESSAGE_LITERALS:
         if src not in seen:
             seen.add(src)
             yield src
